@@ -11,6 +11,7 @@ import (
 	"sort"
 	"strconv"
 	"strings"
+	"sync/atomic"
 	"time"
 )
 
@@ -212,6 +213,9 @@ func runProp(w *World, prop, tier string, useCache bool) (*PropRun, float64) {
 	}
 	for _, o := range pr.obls {
 		o.Query = w.buildQuery(pr.ctxs[o.Func], o)
+		if d := os.Getenv("GOVC_DUMPID"); d != "" && strings.Contains(o.ID, d) {
+			os.WriteFile("/tmp/govc-checkdump-"+prop+".smt2", []byte(o.Query), 0o644)
+		}
 	}
 	var todo []*Obligation
 	for _, o := range pr.obls {
@@ -275,6 +279,7 @@ func cmdCheck(args []string) int {
 	discharged := 0
 	claimed := 0
 	retrySpent := 0.0
+	var notAttempted []*Obligation
 	for _, o := range pr.obls {
 		if o.Expect == "sat" {
 			if o.Res.Verdict == "unsat" {
@@ -303,6 +308,11 @@ func cmdCheck(args []string) int {
 			if *tier == "thorough" {
 				retryT = 90
 				budget = 900.0
+			}
+			if o.Res != nil && strings.HasPrefix(o.Res.Raw, "not attempted:") {
+				// cut off after 60 failures: neither discharged nor a violation of its own (the 60 are)
+				notAttempted = append(notAttempted, o)
+				continue
 			}
 			if retrySpent > budget {
 				if inBaseline[o.ID] || len(bl.Discharged[prop]) == 0 {
@@ -361,7 +371,25 @@ func cmdCheck(args []string) int {
 			continue
 		}
 		nviol++
-		replayPath, confirmed, note := doReplay(w, pr, fl)
+		var replayPath, note string
+		var confirmed bool
+		if nviol <= 4 || (fl.O.Res != nil && fl.O.Res.Verdict == "sat" && nviol <= 12) {
+			replayPath, confirmed, note = doReplay(w, pr, fl)
+		} else {
+			// the first violations are replayed in full (candidate search + harness on the real code); the rest of a long list
+			// only gets its replay file - replaying hundreds of failures of one broken tree would take hours
+			content := map[string]interface{}{"obligation": fl.O.ID, "kind": fl.Kind, "clause": fl.O.Clause, "note": fl.Note,
+				"result": "no-failing-input-found", "not_replayed": "more than 4 violations in this run: only the first ones are replayed on the real code"}
+			if fl.O.Res != nil {
+				content["verdict"], content["solver"] = fl.O.Res.Verdict, fl.O.Res.Solver
+				raw := fl.O.Res.Raw
+				if len(raw) > 2000 {
+					raw = raw[:2000] + "..."
+				}
+				content["solver_output"] = raw
+			}
+			replayPath = writeReplayFile(prop, fl.O.ID, content)
+		}
 		fl.Replay, fl.Confirmed, fl.Note = replayPath, confirmed, fl.Note+note
 		line := fmt.Sprintf("VIOLATION property=%s replay=%s obligation=%s", prop, replayPath, fl.O.ID)
 		if !confirmed {
@@ -405,6 +433,9 @@ func cmdCheck(args []string) int {
 	}
 	wall := time.Since(t0).Seconds()
 	writeEvidence(prop, *tier, seed, pr, failures, unclaimed, canaryReport, wall, solveS, nviol, knownHit)
+	if len(notAttempted) > 0 {
+		fmt.Printf("govc: %d obligations were not attempted (cut off after 60 failures); they are neither discharged nor counted\n", len(notAttempted))
+	}
 	fmt.Printf("govc: property %s tier %s: %d functions under contract, %d obligations claimed, %d discharged, %d known-finding, %d unclaimed(undecided, never in baseline), %d violations, %.1fs\n",
 		prop, *tier, len(pr.funcs), claimed, discharged, len(dedup(knownHit)), len(unclaimed), nviol, wall)
 	return exit
@@ -442,7 +473,10 @@ func matchesKnown(ks []KnownFinding, prop, id string) *KnownFinding {
 	return nil
 }
 
+var failedSoFar int64
+
 func solveAllPrepared(obls []*Obligation, timeoutS int, all bool) {
+	atomic.StoreInt64(&failedSoFar, 0)
 	done := make(chan struct{}, len(obls))
 	sem := make(chan struct{}, maxPar())
 	for _, o := range obls {
@@ -454,8 +488,18 @@ func solveAllPrepared(obls []*Obligation, timeoutS int, all bool) {
 			if o.Expect == "sat" && to > 3 {
 				to = 3
 			}
+			// a tree that breaks dozens of obligations at once (an uncontracted helper in the middle of the engine) would
+			// otherwise spend a full timeout on each of hundreds of hopeless queries: once 60 obligations have failed the
+			// verdict is clear, the rest is not attempted (reported as undecided, never as discharged)
+			if o.Expect == "unsat" && atomic.LoadInt64(&failedSoFar) >= 60 {
+				o.Res = &SolverResult{Verdict: "unknown", Solver: "none", Raw: "not attempted: 60 obligations of this run had already failed"}
+				return
+			}
 			r := solve(o.Query, to, all && o.Expect == "unsat")
 			o.Res = &r
+			if o.Expect == "unsat" && r.Verdict != "unsat" {
+				atomic.AddInt64(&failedSoFar, 1)
+			}
 		}()
 	}
 	for range obls {
